@@ -327,6 +327,12 @@ macro_rules! ctor_ty { ($s:expr, $V:ident, $name:literal, $N:expr, $kind:ident, 
             let want: Vec<Term> = (0..N).map(|i| if i < len { src[i] } else { Term::default() }).collect();
             lanes_eq(s, $name, concat!($name, " from_iter"), catch(|| src[..len].iter().copied().collect::<$V<Term>>().de()), &want);
             lanes_eq(s, $name, concat!($name, " from_slice"), catch(|| <$V<Term>>::from_slice(&src[..len]).de()), &want);
+            // sources whose size_hint is not exact: a filter (lower bound 0), a chain of an exact and a filtered part, from_fn (0, None),
+            // and an unbounded source cut by take_while - the i-th yielded item still goes to position i
+            lanes_eq(s, $name, concat!($name, " from_iter(filter: size_hint lower bound 0)"), catch(|| src[..len].iter().copied().filter(|_| true).collect::<$V<Term>>().de()), &want);
+            lanes_eq(s, $name, concat!($name, " from_iter(chain of exact and filtered parts)"), catch(|| { let h = len / 2; src[..h].iter().copied().chain(src[h..len].iter().copied().filter(|_| true)).collect::<$V<Term>>().de() }), &want);
+            lanes_eq(s, $name, concat!($name, " from_iter(from_fn: size_hint (0, None))"), catch(|| { let mut i = 0usize; std::iter::from_fn(|| { let r = if i < len { Some(src[i]) } else { None }; i += 1; r }).collect::<$V<Term>>().de() }), &want);
+            lanes_eq(s, $name, concat!($name, " from_iter(unbounded source, take_while)"), catch(|| (0usize..).take_while(|&i| i < len).map(|i| src[i]).collect::<$V<Term>>().de()), &want);
         }
         // Display lists the elements in order
         let vals: Vec<i32> = (0..N as i32).map(|i| 37 * i - 50).collect();
@@ -1143,7 +1149,7 @@ fn main() {
         "13 types x 7 functions with closures that tuple up / wrap their arguments; second operand is a u32 vector with distinct lanes; result position i must be built from the i-th elements only (call order not asserted); non-trivial: all",
         true, true, |s| { s.require_classes(&ALL_TYPES); for_all_vecs!(map_ty, s); });
     rep.section("constructors, conversions, iteration order",
-        "13 types: broadcast, From<T>, zero, one, Zero::zero, One::one, iota (i32 and u8: lane i = i), elem_count / ELEM_COUNT = N, From<tuple>, into_tuple, From<[T;N]>, into_array, as_slice, as_mut_slice, iter, into_iter (+rev), &V into_iter, indexing, from_iter and from_slice for EVERY source length 0..=N+2 (prefix in order, rest Default), Display (numbers parsed back in order); one evaluation per (type, function[, length]); non-trivial: all",
+        "13 types: broadcast, From<T>, zero, one, Zero::zero, One::one, iota (i32 and u8: lane i = i), elem_count / ELEM_COUNT = N, From<tuple>, into_tuple, From<[T;N]>, into_array, as_slice, as_mut_slice, iter, into_iter (+rev), &V into_iter, indexing, from_iter (exact, filtered, chained, from_fn and take_while sources, i.e. also inexact size hints) and from_slice for EVERY source length 0..=N+2 (prefix in order, rest Default), Display (numbers parsed back in order); one evaluation per (type, function[, length]); non-trivial: all",
         true, true, |s| { s.require_classes(&ALL_TYPES); for_all_vecs!(ctor_ty, s); });
     rep.section("scalar on the left: s + V, s * V for the 10 primitive types (non-generic impls)",
         "13 types x {Add, Mul} x {i8 u8 i16 u16 i32 u32 i64 u64 f32 f64}: every pair (scalar s, lane value x) of the alphabet whose exact result fits the type (8-bit: all 256x256 pairs; wider ints: 12-15 boundary values MIN..MAX, thorough: plus all +-2^k, 2^k+-1; floats: 16 values incl. signed zeros, infinities, NaN), x placed in the lanes i = phase mod 3 for phase 0..2, alone at every single lane, and in all lanes, with small fill values (-1/0/1 pattern, replaced by the neutral element where it would overflow) elsewhere; every lane must equal s∘lane_i computed on scalars (floats: same bits or both NaN); overflowing pairs are skipped (panics are outside the property); non-trivial: s∘x differs from x",
